@@ -65,6 +65,10 @@ class Finding:
         return s
 
 
+class _Skip(Exception):
+    """A required construct is missing: the rule reported it and stops."""
+
+
 class R:
     """Result builder handed to a rule function."""
 
@@ -96,8 +100,18 @@ class R:
         self.findings.append(Finding(self.rd.id, construct, stmt, msg, loc, path))
 
     def need(self, cond, msg):
+        """Analysis precondition (anchor present, rule not vacuous): failure = ANALYSIS-ERROR."""
         if not cond:
             raise AnalysisError("%s: %s" % (self.rd.id, msg))
+
+    def must(self, cond, msg, fi=None):
+        """A construct the property requires inside an existing anchor function: its absence is
+        a VIOLATION (e.g. the depth check was deleted), not an analysis error."""
+        if not cond:
+            self.inst("required construct: " + msg)
+            self.bad(fi if fi is not None else self.rd.id, getattr(fi, "node", None),
+                     "required construct is missing: " + msg, stmt="missing: " + msg)
+            raise _Skip()
 
 
 class Ctx:
@@ -139,8 +153,11 @@ def run_rules(ctx, prop, only_rule=None):
         rd = RULES[rid]
         res = R(rd)
         try:
-            rd.fn(ctx, res)
-            if len(res.instances) < rd.min_instances:
+            try:
+                rd.fn(ctx, res)
+            except _Skip:
+                pass
+            if len(res.instances) < rd.min_instances and not res.findings:
                 raise AnalysisError(
                     "%s: only %d instance(s) found, floor is %d (anchor moved or rule vacuous)"
                     % (rid, len(res.instances), rd.min_instances))
